@@ -12,7 +12,9 @@ Abstract syntax (plain dicts / lists, JSON-able)
     units   {"name": str, "imp": None | [url, ref], "defs": [[ref, prefix, exponent, log10 multiplier], ...]}
                prefix: "" | standard prefix name | integer text; exponent: integer; multiplier = 10**k
     comp    {"name": str, "imp": None | [url, ref], "vars": [[name, units, initial value | None, interface]],
-             "math": [[lhs, rhs], ...] (expressions in the format of gen/matheval.py), "kids": [comp]}
+             "math": [[lhs, rhs], ...] (expressions in the format of gen/matheval.py), "kids": [comp],
+             "mblocks": [n1, n2, ...] (optional) the equations are spread over several <math> elements of n1, n2, ...
+             equations (0 = an empty <math/>); absent = one <math> element when there are equations}
                an imported component has no vars / math of its own; its placeholder variables are implied by conns
     conn    [component a, variable a, component b, variable b, mapping id]
 
@@ -51,9 +53,12 @@ def V(name, units, init=None, iface="public_and_private"):
     return [name, units, init, iface]
 
 
-def C(name, vars=(), math=(), kids=(), imp=None):
-    return {"name": name, "imp": list(imp) if imp else None, "vars": [list(v) for v in vars],
-            "math": [list(e) for e in math], "kids": list(kids)}
+def C(name, vars=(), math=(), kids=(), imp=None, mblocks=None):
+    c = {"name": name, "imp": list(imp) if imp else None, "vars": [list(v) for v in vars],
+         "math": [list(e) for e in math], "kids": list(kids)}
+    if mblocks is not None:
+        c["mblocks"] = list(mblocks)
+    return c
 
 
 def CI(name, url, ref, kids=()):
@@ -85,13 +90,22 @@ def mathml_expr(e):
     raise ValueError("unsupported expression %r" % (e,))
 
 
-def mathml(eqns):
-    if not eqns:
-        return ""
-    s = '<math xmlns="%s">' % MATHML_NS
-    for l, r in eqns:
-        s += "<apply><eq/>%s%s</apply>" % (mathml_expr(l), mathml_expr(r))
-    return s + "</math>"
+def mathml(eqns, blocks=None):
+    """the <math> elements of a component: one per block"""
+    if blocks is None:
+        blocks = [len(eqns)] if eqns else []
+    out, k = "", 0
+    for n in blocks:
+        if n == 0:
+            out += '<math xmlns="%s"/>' % MATHML_NS
+            continue
+        out += '<math xmlns="%s">' % MATHML_NS
+        for l, r in eqns[k:k + n]:
+            out += "<apply><eq/>%s%s</apply>" % (mathml_expr(l), mathml_expr(r))
+        out += "</math>"
+        k += n
+    assert k == len(eqns)
+    return out
 
 
 def expr_cns(e, acc):
@@ -162,8 +176,8 @@ def render_model(m):
                 if iface:
                     s += ' interface="%s"' % iface
                 s += "/>\n"
-            if c["math"]:
-                s += "    " + mathml(c["math"]) + "\n"
+            if c["math"] or c.get("mblocks"):
+                s += "    " + mathml(c["math"], c.get("mblocks")) + "\n"
             s += "  </component>\n"
     # connections grouped by (component a, component b) in order of first appearance
     groups, order = {}, []
@@ -422,20 +436,33 @@ class _FileGen:
                 vars_.append(V(vn, un, None))
                 inputs.append((vn, self.dim_of(un)))
                 mine.append((vn, self.dim_of(un)))
-        for i in range(rng.randint(0, 2)):
+        for i in range(rng.choice([0, 1, 2, 2, 3])):
             vn = VAR_CMP[i]
             un = self.units_choice(allow_imp)
             a = rng.choice(mine)[0]
             b = rng.choice(mine)[0]
             cnu = self.units_choice(allow_imp)
             cnu2 = self.units_choice(allow_imp)
-            rhs = ("ap", "plus", [("ap", "times", [("ci", a), ("cn", rng.choice(NUMS), cnu)], None), ("ci", b)], None)
-            if rng.random() < 0.3:
-                rhs = ("ap", "plus", [rhs, ("cn", rng.choice(NUMS), cnu2)], None)
+            form = rng.random()
+            if form < 0.2:
+                rhs = ("ap", "plus", [("ci", a), ("ci", b)], None)            # an equation without any cn
+            else:
+                rhs = ("ap", "plus", [("ap", "times", [("ci", a), ("cn", rng.choice(NUMS), cnu)], None), ("ci", b)], None)
+                if form > 0.7:
+                    rhs = ("ap", "plus", [rhs, ("cn", rng.choice(NUMS), cnu2)], None)
             math.append([("ci", vn), rhs])
             vars_.append(V(vn, un, None))
             mine.append((vn, self.dim_of(un)))
         c = C(name, vars_, math)
+        # the equations in 1-3 <math> elements, now and then with an empty one in between
+        if math and rng.random() < 0.6:
+            cuts = sorted(rng.sample(range(1, len(math)), min(len(math) - 1, rng.randint(0, 2)))) if len(math) > 1 else []
+            sizes = [b - a for a, b in zip([0] + cuts, cuts + [len(math)])]
+            if rng.random() < 0.25:
+                sizes.insert(rng.randrange(len(sizes) + 1), 0)
+            c["mblocks"] = sizes
+        elif not math and rng.random() < 0.1:
+            c["mblocks"] = [0]
         # every input of an importable component has its provider outside the component's own subtree (a sibling of
         # the file, or nobody): whoever imports the component has to connect all of them
         c["_inputs"] = inputs if depth == 0 else []
@@ -541,7 +568,10 @@ def random_graph(rng, max_depth=2, import_prob=0.45, placeholder_kids=0.35):
 def strip_private(files):
     """drop the generator's bookkeeping keys (so that the dicts are JSON-able and canonical)"""
     def comp(c):
-        return {"name": c["name"], "imp": c["imp"], "vars": c["vars"], "math": c["math"], "kids": [comp(k) for k in c["kids"]]}
+        out = {"name": c["name"], "imp": c["imp"], "vars": c["vars"], "math": c["math"], "kids": [comp(k) for k in c["kids"]]}
+        if c.get("mblocks") is not None:
+            out["mblocks"] = c["mblocks"]
+        return out
     return {fn: {"name": m["name"], "units": m["units"], "comps": [comp(c) for c in m["comps"]], "conns": m["conns"],
                  "connids": m["connids"]} for fn, m in files.items()}
 
@@ -764,6 +794,15 @@ def hand_cases():
         f0: M("m0", [], [C("top", [V("z", "metre")]), CI("c", f1, "k")], [("top", "z", "c", "x", "")]),
         f1: M("m1", [], [CI("k", f2, "m")]),
         f2: M("m2", [U("mm", ("metre", "milli"))], [C("m", [V("x", "mm", "2")])])}
+    # several <math> elements: only some contain a cn whose units are renamed (at the top, in a child, in a grandchild)
+    three = [[_ci("p"), _ap("plus", _ci("a"), _cn(1, "u"))], [_ci("s"), _ap("plus", _ci("a"), _cn(2, "metre"))], [_ci("t"), _ap("plus", _ci("a"), _ci("a"))]]
+    tv = [V("a", "u", "2"), V("p", "u"), V("s", "u"), V("t", "u")]
+    cases["math_blocks"] = {
+        f0: M("m0", [U("u", "metre")], [C("top", [V("z", "u", "1")]), CI("c", f1, "c", kids=[C("d", tv, three, mblocks=[1, 0, 1, 1])])]),
+        f1: M("m1", [U("u", "second")],
+              [C("c", tv, three, mblocks=[1, 1, 1],
+                 kids=[C("k1", tv, three, mblocks=[2, 1],
+                         kids=[C("k2", tv, three, mblocks=[1, 2])])])])}
     # ---- known findings
     # the alias of an imported units in the flat model is also a (different) units of the imported model
     cases["kf_alias_capture"] = {
